@@ -4,7 +4,7 @@ import re
 import shutil
 
 from sim import boot, pipeline, refrel, snap
-from sim.core import SimAbort
+from sim.core import SimAbort, SimRandom, h64
 from sim.pcheck import PipelineCheck
 from sim.snap import tsnap, tstr, shape
 from checks.c06 import class_decls
@@ -99,7 +99,7 @@ class C04(PipelineCheck):
                    'by text visibility and unrelatedness only (their compilers are not installed)',
                    'a replacement related to the old type only through boxing/widening of a '
                    'Java/Groovy primitive is a listed known finding']
-    PROBES = ('injected', 'not_injected', 'variable_overwritten', 'return_overwritten',
+    PROBES = ('fault_free_twin', 'injected', 'not_injected', 'variable_overwritten', 'return_overwritten',
               'type_argument_overwritten', 'after_erasure', 'javac_judged', 'timer_fired')
     ROUNDS = (0, 0, 1, 1, 2, 3)
     MAX_DEPTH = (1, 6)
@@ -116,6 +116,20 @@ class C04(PipelineCheck):
 
     def observer(self, sim, plan):
         return pipeline.Observer()
+
+    def make_faults(self, run_seed, config):
+        # every application of the mutation starts two timers (two passes of visit_program)
+        import random as _r
+        r = _r.Random(h64(run_seed, 'faults'))
+        plan = {'timer': {}, 'clock': {}}
+        ntimers = config.get('rounds', 0) + 2 * self.K
+        for i in range(ntimers):
+            if r.random() < 0.2:
+                plan['timer'][str(i)] = r.choice([0, 1, 2, 5, 20, 100, 400, 2000])
+        if r.random() < 0.15:
+            plan['clock'][str(r.randint(1, 2 * ntimers))] = r.choice(
+                [config.get('timeout', 600) + 1.0, -30.0, 1e6])
+        return plan
 
     def judge(self, run, obs, sim, plan):
         import pickle
@@ -150,6 +164,8 @@ class C04(PipelineCheck):
             program = pickle.loads(blob)
             o = OverwriteObserver(self, sim, c)
             o.before_transform(run, 'TypeOverwriting', program, 0)
+            pos0 = len(sim.rand.tape)
+            fired0 = sim.fault_fired['P4'] + sim.fault_fired['timer_deadline']
             try:
                 to = TypeOverwriting(program, c['language'], None,
                                      {'timeout': c.get('timeout', 600)})
@@ -160,6 +176,12 @@ class C04(PipelineCheck):
             except Exception:   # noqa  (C18's business)
                 continue
             o.after_transform(run, 'TypeOverwriting', program, to, 0)
+            if sim.fault_fired['P4'] + sim.fault_fired['timer_deadline'] > fired0 and \
+                    sim.rand.src is None:
+                # the timer fired in this application: the same choices without the fault
+                # must give the same outcome (the timeout path must not return stale or
+                # partial results)
+                self._fault_free_twin(sim, c, blob, pos0, to, o, v, obl, probes)
             ex = self.examine(run, o, sim, plan, v, probes, obl)
             ninj += ex.get('injected', 0)
             if sample is None and ex.get('sample') and ex.get('injected'):
@@ -171,6 +193,52 @@ class C04(PipelineCheck):
                                 P2_directed_choice=sim.rand.prefer_fired),
                  'sample': sample or {'config': c, 'note': 'no injection in this run'}}
         return list(v.values()), extra
+
+    def _fault_free_twin(self, sim, c, blob, pos0, to, o, v, obl, probes):
+        import pickle
+        from src.transformations.type_overwriting import TypeOverwriting
+        seg = sim.rand.tape[pos0:]
+        main = sim.rand
+        saved_plan, saved_timers = sim.fault_plan, list(sim.timers)
+        saved_now = sim.now
+        twin = SimRandom(sim, main.ru, 1, tape=seg, strict=True, buggify=False)
+        sim.rand = twin
+        sim.fault_plan = {'timer': {}, 'clock': {}}
+        sim.timers = []
+        try:
+            p2 = pickle.loads(blob)
+            o2 = OverwriteObserver(self, sim, c)
+            o2.before_transform(None, 'TypeOverwriting', p2, 0)
+            try:
+                t2 = TypeOverwriting(p2, c['language'], None, {'timeout': 10 ** 9})
+                t2.transform()
+                p2 = t2.result()
+            except SimAbort:
+                return
+            except Exception:   # noqa
+                return
+            o2.after_transform(None, 'TypeOverwriting', p2, t2, 0)
+        finally:
+            sim.rand = main
+            main.rebind()
+            sim.fault_plan, sim.timers = saved_plan, saved_timers
+            sim.now = saved_now
+        obl['fault-free-equal'] = obl.get('fault-free-equal', 0) + 1
+        probes['fault_free_twin'] = probes.get('fault_free_twin', 0) + 1
+        a, b = o.result, o2.result
+        same = (a['is_transformed'], a['error_injected']) == (b['is_transformed'],
+                                                               b['error_injected']) and \
+            a['texts_after'] == b['texts_after']
+        if not same:
+            sig = 'timer-fault-changes-result|overwriting'
+            v.setdefault(sig, {
+                'rule': 'timer-fault-changes-result', 'sig': sig,
+                'detail': 'with the transformation timer fired during TypeOverwriting the '
+                          'outcome (transformed=%s, %r) differs from the fault-free '
+                          'application of the same choices (transformed=%s, %r) [lang=%s]' % (
+                              a['is_transformed'], (a['error_injected'] or '')[:80],
+                              b['is_transformed'], (b['error_injected'] or '')[:80],
+                              c['language'])})
 
     def examine(self, run, obs, sim, plan, v, probes, obl):
         c = plan['config']
